@@ -36,6 +36,19 @@ def strip_copy(e):
     return e
 
 
+def _upper_canon(prog, fn, up, at):
+    """canonical upper bound of a log slice; a local computed *after* the evaluations (``n = LOG.Xn + 1``) is expanded."""
+    if up is None:
+        return None
+    if isinstance(up, ast.Name):
+        from .common import reaching_assignments as _ra
+
+        dd = _ra(prog, fn, up.id, at)
+        if len(dd) == 1:
+            return canon(dd[0])
+    return canon(up)
+
+
 def check(ctx):
     prog = ctx.prog
     R = roles_of(prog)
@@ -140,6 +153,24 @@ def check(ctx):
         for t, pol in guard_of(prog, caller, call):
             g.append((t, pol))
         moves.append((caller, call, g))
+    # a move guarded by a boolean flag whose definitions are the literals True / False (a predicate helper with early
+    # returns, inlined): the conditions of the move are the guards of the ``flag = True`` stores, one virtual move each
+    expanded = []
+    for caller, call, g in moves:
+        flag_tests = [(t, pol) for t, pol in g if isinstance(t, ast.Name) and pol]
+        done_ = False
+        for t, pol in flag_tests:
+            stores_ = [(v_, s_) for t_, v_, s_, k_ in iter_stores(caller.node) if isinstance(t_, ast.Name) and t_.id == t.id]
+            if stores_ and all(isinstance(v_, ast.Constant) and isinstance(v_.value, bool) for v_, s_ in stores_):
+                rest_g = [(t2, p2) for t2, p2 in g if t2 is not t]
+                for v_, s_ in stores_:
+                    if v_.value is True:
+                        expanded.append((caller, call, rest_g + list(guard_of(prog, caller, s_))))
+                done_ = True
+                break
+        if not done_:
+            expanded.append((caller, call, g))
+    moves = expanded
     for caller, call, g in moves:
         conds = []
         for t, pol in g:
@@ -260,7 +291,7 @@ def check(ctx):
         for name, src, dstmt in stales:
             ctx.fail(mesh, dstmt, f"the local '{name}' is bound to the log array {src} before evaluations that can re-bind that array (the cache grows by re-allocation): the later read sees the stale, shorter array and ignores the points logged after the growth", construct=f"stale alias {name} = {src} across evaluations")
         ok_arg = False
-        if isinstance(arg, ast.Subscript) and canon(arg.value) == "LOG.Y" and isinstance(arg.slice, ast.Slice) and arg.slice.lower is None and canon(arg.slice.upper) in ("(1 + LOG.Xn)", "(1 + LOG.X_max_idx)"):
+        if isinstance(arg, ast.Subscript) and canon(arg.value) == "LOG.Y" and isinstance(arg.slice, ast.Slice) and arg.slice.lower is None and _upper_canon(prog, mesh, arg.slice.upper, st) in ("(1 + LOG.Xn)", "(1 + LOG.X_max_idx)"):
             ok_arg = call_name(am) in ("np.argmin", "np.nanargmin")
         elif canon(arg) == "LOG.Y" and call_name(am) == "np.nanargmin":
             # the whole table: sound iff unfilled rows are NaN at allocation and after every growth
